@@ -165,7 +165,7 @@ fn hostile_entries(nums: &[u64]) -> Vec<Line> {
 
 /// texts / signatures for (d)
 const SIG_CHARS: [&str; 10] = ["(", ")", "L", ";", "[", "I", "V", "\u{e9}", "/", "x"];
-const TXT_TOKENS: [&str; 15] = ["at ", "a", ".", "(", ")", ":", "1", "\u{e9}", " ", "Caused by: ", "\t", "\n", "Exception in thread \"", "\"", "\u{a0}"];
+const TXT_TOKENS: [&str; 16] = ["at ", "a", ".", "(", ")", ":", "1", "\u{e9}", " ", "Caused by: ", "\t", "\n", "Exception in thread \"", "\"", "\u{a0}", "at"];
 
 fn text_visit(s: &str, m: &dyn Subj, c: &dyn Subj, as_sig: bool, acc: &mut Acc) {
     acc.states += 1;
